@@ -13,9 +13,13 @@ RULE = ("(1) the parameter splitter on every text of length <= 5 over {a , space
         "(ints 2/9/10, floats 1.5/2.25/10.0, strings a/b/ab; mixed and null-holding triples kept apart as family "
         "'mixed'), at the document root and under a key, x each of the 7 keywords x plain/inverted x parameter "
         "absent/present; every Array-of-Hashes and hash-of-hashes of <= 4 members whose attribute `a` is absent / "
-        "null / one of two values (ints and strings; AoH members may also be null) x keyword x inversion x parameter "
-        "a / absent / unknown; parent(n), n in 0..5 and default, and name() for every node of 14 small documents "
-        "reached by key, index and Array-of-Hashes pass-through paths; has_child on hashes, lists, nulls, scalars; "
+        "null / one of two values (ints, strings; <= 3 members for the unequal look-alike pairs 1/'1', 2.5/'2.5', "
+        "true/'True'), AoH members may also be null, hash-of-hashes members may also be null or a bare scalar, x keyword x "
+        "inversion x parameter a / absent / unknown - these are also judged WITHOUT the model: unique/distinct by Python == "
+        "on the values, max/min plain + inverted must partition all members; parent(n), n in 0..5 and default, and "
+        "name() for every node of 14 small documents reached by key, index and Array-of-Hashes pass-through paths, and "
+        "for the nodes a filtered deep traversal (**.key, **[key=1], **[key>0]) reaches in 6 fixed + 60 seeded documents "
+        "with lists of hashes (also name() of each climbed ancestor); has_child on hashes, lists, nulls, scalars; "
         "collections holding containers (crash classes).  Observable: result node addresses in order (identity of the "
         "yielded container, else parent identity + parentref), for name() the yielded key/index, or the error class.  "
         "distinct_nontrivial = distinct cases with a non-empty result that is a proper subset of the members or a "
@@ -122,11 +126,100 @@ def run_kw(docj, path, want_kw, want_inv, want_params):
     return True, {"err": cls, "site": core.crash_site(val), "partial": len(res) + len(names)}
 
 
+def reached_by(docj, path):
+    """Addresses of the nodes the real code reaches by `path`, in order."""
+    from yamlpath import Processor, YAMLPath
+    doc = codec.json_to_ruamel(docj)
+    table = codec.build_addr_table(doc)
+
+    def go():
+        proc = Processor(core.quiet_logger(), doc)
+        return [addr_of_result(nc, table, doc) for nc in proc.get_nodes(YAMLPath(path), mustexist=True)]
+    st, val = cc.guarded(go)
+    if st == "ok":
+        return val
+    if isinstance(val, codec.OutOfModel):
+        return {"oom": str(val)}
+    return {"err": "timeout" if st == "timeout" else core.exc_class(val)}
+
+
+def nodes_of(outcome):
+    """Result addresses of a query outcome; a YAML Path error without results = nothing matched; None = other error."""
+    if "nodes" in outcome:
+        return outcome["nodes"]
+    return [] if outcome == {"err": "ypath"} else None
+
+
+def py_eq(a, b):
+    """Equality of two scalar values as Python `==` decides it (1 == 1.0 == True; 1 != "1"; null == null)."""
+    return a == b
+
+
+def direct_judge(c, path, got):
+    """The clauses of the property judged without the model, with Python `==` on the values themselves, for an
+    Array-of-Hashes / hash-of-hashes at `ats[0]` and a parameter naming the attribute:
+    unique = the members whose value occurs once (inverted: more than once), distinct = the first member of each group
+    of equal values, max/min plain + inverted = a partition of ALL the members.  None = held or not judged."""
+    kw, inv, name = c["kw"], c["inv"], c["params"]
+    if kw not in ("UNIQUE", "DISTINCT", "MAX", "MIN") or not name.isalnum() or len(c["ats"]) != 1:
+        return None
+    at = c["ats"][0]
+    coll = codec.json_to_plain(c["doc"])
+    for kind, ref in at:
+        coll = coll[ref]
+    if isinstance(coll, dict):
+        members = [(["k", k], v) for k, v in coll.items()]
+        if name in coll and any(not isinstance(v, dict) for _, v in members):
+            return None                      # "the parameter names a key of the parent": refused by the code
+    elif isinstance(coll, list) and all(v is None or isinstance(v, dict) for v in coll) and coll:
+        members = [(["i", i], v) for i, v in enumerate(coll)]
+    else:
+        return None
+    keyed = [(ref, v[name]) for ref, v in members if isinstance(v, dict) and name in v]
+    if any(isinstance(v, (dict, list, set)) for _, v in keyed):
+        return None                          # container values: crash classes, C15's domain
+    addr = lambda ref: at + [ref]
+    if kw in ("UNIQUE", "DISTINCT"):
+        occ = lambda v: sum(1 for _, w in keyed if py_eq(v, w))
+        if kw == "UNIQUE" and not inv:
+            want = [addr(r) for r, v in keyed if occ(v) == 1]
+            if got != want:
+                return ("direct:unique-not-the-once-occurring", "yielded %s; the members whose `%s` occurs once are %s" % (got, name, want))
+        elif kw == "UNIQUE":
+            want = [addr(r) for r, v in keyed if occ(v) > 1]
+            if sorted(map(json.dumps, got)) != sorted(map(json.dumps, want)):
+                return ("direct:!unique-not-the-repeated", "yielded %s; the members whose `%s` occurs more than once are %s" % (got, name, want))
+        elif not inv:
+            want = [addr(r) for i, (r, v) in enumerate(keyed) if not any(py_eq(v, w) for _, w in keyed[:i])]
+            if got != want:
+                return ("direct:distinct-not-first-of-each-group", "yielded %s; the first members of each group of equal `%s` are %s" % (got, name, want))
+        return None
+    if not inv:
+        return None
+    # max/min: the plain and the inverted result partition the members
+    okp, plain = run_kw(c["doc"], "%s[%s(%s)]" % (c["path"], KW[kw], name), kw, False, name)
+    if not okp or nodes_of(plain) is None or not (got or nodes_of(plain)):
+        return None                          # both empty: the query is refused altogether
+    plain = {"nodes": nodes_of(plain)}
+    allm = sorted(json.dumps(addr(r)) for r, _ in members)
+    both = sorted(json.dumps(a) for a in plain["nodes"] + got)
+    if both != allm:
+        return ("direct:%s-partition" % KW[kw], "yielded %s and plain %s; together they must be exactly the members %s"
+                % (got, plain["nodes"], [addr(r) for r, _ in members]))
+    return None
+
+
 def kw_chunk(cases):
     """cases: [{"fam", "doc", "path", "ats", "kw", "inv", "params"}]"""
     drv = core.Driver()
     reqs = []
     for c in cases:
+        if c.get("reach") == "impl":
+            # a search filter behind `**` (which also tests every scalar leaf against the term): which nodes that reaches
+            # is not C13's business; the keyword is judged on the nodes the code does reach
+            rs = reached_by(c["doc"], c["path"])
+            c["ats"] = rs if isinstance(rs, list) else []
+            c["unreached"] = not isinstance(rs, list) or not rs
         for at in c["ats"]:
             reqs.append({"op": "C13.kw", "doc": c["doc"], "at": at, "inv": c["inv"], "kw": c["kw"], "params": c["params"]})
     answers = drv.ask(reqs)
@@ -144,6 +237,27 @@ def kw_chunk(cases):
         if not okp:
             stats["skipped"] += 1
             continue
+        if c.get("unreached"):
+            stats["oom"] += 1
+            continue
+        if c.get("reach") == "oracle":
+            # the path in front of the keyword is a deep traversal: the nodes it reaches are C01's business; C13 judges
+            # the keyword on the nodes it does reach (`ats`, from the definition of `**` + filter) only if the code
+            # reaches exactly those
+            rs = reached_by(c["doc"], c["path"])
+            if rs != c["ats"]:
+                if not (isinstance(rs, dict) and "oom" in rs):
+                    disag.append(("deep-traversal-reach", "%s on %s reaches %s; by the definition of ** %s"
+                                  % (c["path"], json.dumps(codec.json_to_plain(c["doc"])), rs, c["ats"]), case))
+                else:
+                    stats["oom"] += 1
+                continue
+        if c.get("direct") and nodes_of(im) is not None:
+            dv = direct_judge(c, path, nodes_of(im))
+            if dv is not None:
+                stats["fam"][c["fam"]] = stats["fam"].get(c["fam"], 0) + 1
+                viol.append((dv[0], "%s on %s %s" % (path, json.dumps(codec.json_to_plain(c["doc"]), default=sorted), dv[1]), case))
+                continue
         # the model's expectation for the whole query: results of each reached node, in order
         merr, mnodes, mnames = None, [], []
         for mo in mos:
@@ -251,20 +365,32 @@ def member_states(values):
     return [absent, null_attr] + [{"k": "map", "e": [["a", sj(v)]]} for v in values]
 
 
+HASH_VALUE_FAMILIES = [
+    # (family, the two attribute values, longest collection enumerated)
+    ("ints", [2, 10], 4), ("strings", ["b", "ab"], 4),
+    # unequal values of different types that print alike: grouping / comparing must go by value, not by text
+    ("mixed/int-str", [1, "1"], 3), ("mixed/float-str", [2.5, "2.5"], 3), ("mixed/bool-str", [True, "True"], 3),
+]
+
+
 def hash_cases(maxlen, rng, tier):
     cases = []
-    for vfam, values in (("ints", [2, 10]), ("strings", ["b", "ab"])):
+    for vfam, values, vmax in HASH_VALUE_FAMILIES:
         states = member_states(values)
         aoh_states = states + [{"k": "null"}]
-        for n in range(0, maxlen + 1):
-            for shape, pool in (("aoh", aoh_states), ("hoh", states)):
+        # members of a hash of hashes that are not hashes themselves: a null placeholder, a bare scalar
+        hoh_states = states + [{"k": "null"}, sj(values[0])]
+        nonhash = {"aoh": (len(states),), "hoh": (len(states), len(states) + 1)}
+        for n in range(0, min(maxlen, vmax) + 1):
+            for shape, pool in (("aoh", aoh_states), ("hoh", hoh_states)):
                 for idxs in itertools.product(range(len(pool)), repeat=n):
                     if shape == "aoh":
                         coll = {"k": "seq", "i": [pool[i] for i in idxs]}
                     else:
                         coll = {"k": "map", "e": [["k%d" % j, pool[i]] for j, i in enumerate(idxs)]}
                     has_null_attr = any(i == 1 for i in idxs)
-                    fam = "%s/%s%s" % (shape, vfam, "+nullattr" if has_null_attr else "")
+                    fam = "%s/%s%s%s" % (shape, vfam, "+nullattr" if has_null_attr else "",
+                                         "+nonhash-member" if any(i in nonhash[shape] for i in idxs) else "")
                     placements = wrap(coll, n)
                     if n == maxlen and tier == "quick":
                         placements = placements[:1]
@@ -273,7 +399,7 @@ def hash_cases(maxlen, rng, tier):
                             for inv in (False, True):
                                 for params in param_sets(shape, kw):
                                     cases.append({"fam": fam, "doc": doc, "path": path, "ats": ats, "kw": kw, "inv": inv,
-                                                  "params": params, "members": n})
+                                                  "params": params, "members": n, "direct": True})
     # a hash whose own key is named like the parameter, holding non-hash members
     for vals in ([1, 2], [1, {"k": "map", "e": [["a", sj(3)]]}]):
         es = [["a", sj(vals[0])], ["k1", vals[1] if isinstance(vals[1], dict) else sj(vals[1])]]
@@ -353,6 +479,85 @@ def parent_cases():
     return cases
 
 
+# documents with lists of hashes, for parent(n) / name() on nodes found by a filtered deep traversal
+DEEP_DOCS = [
+    {"l": [{"a": 1}, {"a": 2, "b": {"a": 3}}]},
+    {"top": {"l": [{"n": 0, "m": {"a": 1}}, {"n": 1, "m": {"a": 2}}]}},
+    [{"a": {"b": 1}}, {"a": {"b": 2}}, [{"b": 3}]],
+    {"x": {"l": [{"m": {"a": 1, "l": [{"a": 2}]}}, {"m": {"a": 1}}], "a": 0}},
+    {"p": [[{"a": 1}], {"q": [{"a": 1, "c": None}]}]},
+    {"h": {"k": {"a": 1}}, "l": [[[{"a": 2}]]]},
+]
+
+
+def random_deep_doc(rng, depth=0):
+    """A document of hashes and lists (lists of hashes mostly) with integer leaves under the keys a, b, c, l."""
+    r = rng.random()
+    if depth >= 4 or r < 0.25 + 0.1 * depth:
+        return rng.randint(0, 2)
+    if r < 0.65:
+        ks = rng.sample(["a", "b", "c", "l"], rng.randint(1, 3))
+        return {k: random_deep_doc(rng, depth + 1) for k in ks}
+    return [random_deep_doc(rng, depth + 1) if rng.random() < 0.3 else
+            {k: random_deep_doc(rng, depth + 2) for k in rng.sample(["a", "b", "c"], rng.randint(1, 2))}
+            for _ in range(rng.randint(1, 3))]
+
+
+def deep_reach(d, kind, key, val=None):
+    """Addresses the path `**.key` / `**[key=val]` / `**[key>val]` reaches, by the definition of `**` followed by a
+    filter: every hash of the document, in document order (a node before its children), whose child `key` passes the
+    filter, contributes that child."""
+    out = []
+
+    def walk(v, addr):
+        if isinstance(v, dict):
+            if key in v:
+                x = v[key]
+                isnum = isinstance(x, int) and not isinstance(x, bool)
+                if kind == "key" or (kind == "eq" and isnum and x == val) or (kind == "gt" and isnum and x > val):
+                    out.append(addr + [["k", key]])
+            for k, x in v.items():
+                walk(x, addr + [["k", k]])
+        elif isinstance(v, list):
+            for i, x in enumerate(v):
+                walk(x, addr + [["i", i]])
+    walk(d, [])
+    return out
+
+
+def deep_parent_cases(rng, nrandom):
+    cases = []
+    docs = list(DEEP_DOCS)
+    while len(docs) < len(DEEP_DOCS) + nrandom:
+        d = random_deep_doc(rng)
+        if isinstance(d, (dict, list)) and "[{" in json.dumps(d).replace(" ", ""):
+            docs.append(d)
+    for d in docs:
+        dj = plain_to_json(d)
+        keys = sorted({a[-1][1] for a, _ in all_nodes(d) if a and a[-1][0] == "k"})
+        prefixes = []
+        for k in keys:
+            prefixes.append(("**.%s" % k, deep_reach(d, "key", k), "key"))
+            prefixes.append(("**[%s=1]" % k, deep_reach(d, "key", k), "search"))
+            prefixes.append(("**[%s>0]" % k, deep_reach(d, "key", k), "search"))
+        for path, ats, pk in prefixes:
+            reach = "oracle" if pk == "key" else "impl"
+            if not ats:
+                continue
+            for n in ["", "0", "1", "2", "3", "4", "5"]:
+                cases.append({"fam": "parent/deep-traversal-" + pk, "doc": dj, "path": path, "ats": ats, "kw": "PARENT",
+                              "inv": False, "params": n, "members": 0, "reach": reach})
+                # name() of the climbed ancestor (where every reached node has that many ancestors)
+                steps = 1 if n == "" else int(n)
+                if reach == "impl" or all(len(a) >= steps for a in ats):
+                    cases.append({"fam": "name/deep-traversal-" + pk, "doc": dj, "path": "%s[parent(%s)]" % (path, n),
+                                  "ats": [a[:len(a) - steps] for a in ats], "kw": "NAME", "inv": False, "params": "",
+                                  "members": 0, "reach": reach})
+            cases.append({"fam": "name/deep-traversal-" + pk, "doc": dj, "path": path, "ats": ats, "kw": "NAME", "inv": False,
+                          "params": "", "members": 0, "reach": reach})
+    return cases
+
+
 def odd_cases():
     """Collections holding containers, odd parameters: the crash classes of the model."""
     cases = []
@@ -378,20 +583,33 @@ def random_cases(rng, n):
         else:
             vals = [rng.choice(["a", "b", "ab", "B", "ba", "", "é", "abc"]) for _ in range(rng.randint(6, 12))]
         shape = rng.choice(["seq", "aoh", "hoh"])
+        if shape != "seq" and rng.random() < 0.3:
+            # same text, different type
+            vals = [(str(v) if rng.random() < 0.4 else v) for v in vals]
+            fam = "mixed-" + fam
+
+        def member(v):
+            r = rng.random()
+            if r < 0.75:
+                return {"k": "map", "e": [["a", sj(v)]]}
+            if r < 0.85:
+                return {"k": "map", "e": [["b", sj(0)]]}
+            if r < 0.93 or shape == "aoh":
+                return {"k": "null"}
+            return sj(v)
         if shape == "seq":
             coll = {"k": "seq", "i": [sj(v) for v in vals]}
             params = ""
         elif shape == "aoh":
-            coll = {"k": "seq", "i": [{"k": "map", "e": ([["a", sj(v)]] if rng.random() < 0.85 else [["b", sj(0)]])} for v in vals]}
+            coll = {"k": "seq", "i": [member(v) for v in vals]}
             params = "a"
         else:
-            coll = {"k": "map", "e": [["k%d" % i, {"k": "map", "e": ([["a", sj(v)]] if rng.random() < 0.85 else [["b", sj(0)]])}]
-                                      for i, v in enumerate(vals)]}
+            coll = {"k": "map", "e": [["k%d" % i, member(v)] for i, v in enumerate(vals)]}
             params = "a"
         doc, path, ats, members = wrap(coll, len(vals))[0]
         cases.append({"fam": "random/%s/%s" % (shape, fam), "doc": doc, "path": path, "ats": ats,
                       "kw": rng.choice(["MAX", "MIN", "UNIQUE", "DISTINCT"]), "inv": rng.random() < 0.5, "params": params,
-                      "members": members})
+                      "members": members, "direct": shape != "seq"})
     return cases
 
 
@@ -423,6 +641,7 @@ def run(chk: core.Check):
     for r in core.pmap(split_chunk, core.chunked(texts, 16)):
         _absorb(chk, *r)
     cases = seq_cases(5) + hash_cases(4, rng, tier) + parent_cases() + odd_cases()
+    cases += deep_parent_cases(rng, 60 if tier == "quick" else 600)
     cases += random_cases(rng, 3000 if tier == "quick" else 100000)
     chk.extra_cov["cases_generated"] = len(cases)
     rng.shuffle(cases)
@@ -430,7 +649,8 @@ def run(chk: core.Check):
         _absorb(chk, *r)
     chk.exhaustive = True
     chk.extra_cov["exhaustive_bound"] = ("all sequences of length <= 5 over 3 values x 7 value triples; all AoH (5 member states) "
-                                        "and hash-of-hashes (4 member states) of <= 4 members x 2 value kinds; parameter "
+                                        "and hash-of-hashes (6 member states, incl. null and bare-scalar members) of <= 4 "
+                                        "members x 2 value kinds and of <= 3 members x 3 mixed-type value pairs; parameter "
                                         "texts of length <= 5 over 6 characters")
     return chk
 
